@@ -38,6 +38,10 @@ fn traf_of<const N: usize>(f: &Frag<N>, shape: u8) -> TrafBox {
     if shape & BASE != 0 {
         tfhd.base_data_offset = Some(f.base);
         tfhd.flags |= 0x01;
+        // default-base-is-moof may be set as well: an explicit base data offset takes precedence
+        if kani::any() {
+            tfhd.flags |= 0x020000;
+        }
     } else {
         tfhd.flags |= 0x020000;
     }
